@@ -1154,6 +1154,8 @@ pub struct VectorEngine {
     delete_lock: RwLock<()>,
     /// Cached HNSW indexes keyed by collection name for accelerated search.
     hnsw_cache: Arc<RwLock<HashMap<String, HnswCacheEntry>>>,
+    /// Counts cache invalidations, so that an index built while the data changed is not cached.
+    hnsw_epoch: Arc<std::sync::atomic::AtomicU64>,
 }
 
 impl VectorEngine {
@@ -1166,6 +1168,7 @@ impl VectorEngine {
             collections: Arc::new(RwLock::new(HashMap::new())),
             delete_lock: RwLock::new(()),
             hnsw_cache: Arc::new(RwLock::new(HashMap::new())),
+            hnsw_epoch: Arc::new(std::sync::atomic::AtomicU64::new(0)),
         }
     }
 
@@ -1178,6 +1181,7 @@ impl VectorEngine {
             collections: Arc::new(RwLock::new(HashMap::new())),
             delete_lock: RwLock::new(()),
             hnsw_cache: Arc::new(RwLock::new(HashMap::new())),
+            hnsw_epoch: Arc::new(std::sync::atomic::AtomicU64::new(0)),
         }
     }
 
@@ -1194,6 +1198,7 @@ impl VectorEngine {
             collections: Arc::new(RwLock::new(HashMap::new())),
             delete_lock: RwLock::new(()),
             hnsw_cache: Arc::new(RwLock::new(HashMap::new())),
+            hnsw_epoch: Arc::new(std::sync::atomic::AtomicU64::new(0)),
         })
     }
 
@@ -1210,6 +1215,7 @@ impl VectorEngine {
             collections: Arc::new(RwLock::new(HashMap::new())),
             delete_lock: RwLock::new(()),
             hnsw_cache: Arc::new(RwLock::new(HashMap::new())),
+            hnsw_epoch: Arc::new(std::sync::atomic::AtomicU64::new(0)),
         })
     }
 
@@ -1241,6 +1247,7 @@ impl VectorEngine {
             collections: Arc::new(RwLock::new(HashMap::new())),
             delete_lock: RwLock::new(()),
             hnsw_cache: Arc::new(RwLock::new(HashMap::new())),
+            hnsw_epoch: Arc::new(std::sync::atomic::AtomicU64::new(0)),
         })
     }
 
@@ -1282,6 +1289,7 @@ impl VectorEngine {
             collections: Arc::new(RwLock::new(HashMap::new())),
             delete_lock: RwLock::new(()),
             hnsw_cache: Arc::new(RwLock::new(HashMap::new())),
+            hnsw_epoch: Arc::new(std::sync::atomic::AtomicU64::new(0)),
         })
     }
 
@@ -1319,14 +1327,20 @@ impl VectorEngine {
     /// Call this after inserting or deleting embeddings to ensure
     /// `search_similar()` uses fresh data.
     pub fn invalidate_hnsw_cache(&self, collection: &str) {
-        self.hnsw_cache.write().remove(collection);
+        let mut cache = self.hnsw_cache.write();
+        self.hnsw_epoch
+            .fetch_add(1, std::sync::atomic::Ordering::SeqCst);
+        cache.remove(collection);
     }
 
     /// Drop every cached HNSW index (all collections).
     ///
     /// Call this after the store's content was replaced wholesale (`ROLLBACK TO`).
     pub fn clear_hnsw_cache(&self) {
-        self.hnsw_cache.write().clear();
+        let mut cache = self.hnsw_cache.write();
+        self.hnsw_epoch
+            .fetch_add(1, std::sync::atomic::Ordering::SeqCst);
+        cache.clear();
     }
 
     /// Build an HNSW index and cache it for the default collection.
@@ -1335,11 +1349,17 @@ impl VectorEngine {
     ///
     /// Returns an error if index building fails.
     pub fn build_and_cache_index(&self, config: HNSWConfig) -> Result<()> {
+        let epoch = self.hnsw_epoch.load(std::sync::atomic::Ordering::SeqCst);
         let (index, keys) = self.build_hnsw_index(config)?;
         // The cached mapping holds storage keys (search_similar strips the prefix once), so a
         // user key that itself starts with "emb:" is reported unchanged.
         let keys = keys.iter().map(|k| Self::embedding_key(k)).collect();
-        self.cache_hnsw_index("_default", Arc::new(index), keys);
+        // A store or delete that finished while the index was being built found no cache to
+        // drop: the index may already be stale, so it is only cached if nothing was invalidated.
+        let mut cache = self.hnsw_cache.write();
+        if self.hnsw_epoch.load(std::sync::atomic::Ordering::SeqCst) == epoch {
+            cache.insert("_default".to_string(), (Arc::new(index), keys));
+        }
         Ok(())
     }
 
@@ -2397,6 +2417,8 @@ impl VectorEngine {
         for key in keys {
             self.store.delete(&key)?;
         }
+        // again after the data changed, for an index that was being built meanwhile
+        self.invalidate_hnsw_cache("_default");
         Ok(count)
     }
 
